@@ -4,4 +4,6 @@ mod multiplication;
 mod share_conversion_aby;
 pub(crate) mod step;
 pub use share_conversion_aby::{convert_to_fp25519, expand_shared_array_in_place};
+#[cfg(feature = "ipa-verif")]
+pub(crate) use multiplication::integer_mul as verif_integer_mul;
 pub mod sigmoid;
